@@ -13,7 +13,11 @@ Carrier == Carriers[((N + flt.nc + 2 * flt.nd + (TrajFuel \div 1000) + (IF gse T
 \* does not depend on it.  One profile per flight, spread deterministically.
 AltProfiles == <<"high", "low">>
 AltProfile == AltProfiles[((N + 2 * flt.nc + flt.nd + (IF mode = "lto" THEN 1 ELSE 0)) % 2) + 1]
-Emit == PrintT("@@" \o ToJson([n |-> N, carrier |-> Carrier, profile |-> AltProfile, burn |-> [i \in 1..N |-> SegBurn(i)], nc |-> flt.nc, nd |-> flt.nd,
+\* The performance model lists its four LTO modes in some order (idle .. take-off, or take-off .. idle as the ICAO
+\* databank does): per-mode data are keyed by mode, the listing order means nothing.  One order per flight.
+ModeOrders == <<"idle_first", "takeoff_first">>
+ModeOrder == ModeOrders[((N + flt.nc + flt.nd + (IF gse THEN 0 ELSE 1) + (IF apu = "running" THEN 1 ELSE 0)) % 2) + 1]
+Emit == PrintT("@@" \o ToJson([n |-> N, carrier |-> Carrier, profile |-> AltProfile, modeorder |-> ModeOrder, burn |-> [i \in 1..N |-> SegBurn(i)], nc |-> flt.nc, nd |-> flt.nd,
                                mode |-> mode, flows |-> flows, apu |-> apu, gse |-> gse,
                                window |-> [i \in 1..N |-> InWindow(i)], trajfuel |-> TrajFuel,
                                ltofuel |-> [m \in {"idle", "approach", "climb", "takeoff"} |-> LtoFuel(m)],
